@@ -46,7 +46,9 @@ INIT_KW = {"PLSSDesc": ("layout", "parse_qq", "wait_to_parse"),
 FAMILIES = ("channels", "precedence", "master", "reject", "roundtrip",
             "wait", "twprgesec")
 
-BOGUS_NAMES = ("bogus", "clean_q", "qq_depth_mid.2", "parse-qq", "TRS_DESC",
+BOGUS_NAMES = ("config_name.abc", "config_text", "from_dict", "decompile_to_text",
+               "_CONFIG_ATTRIBUTES", "config_name", "from_kwargs.1",
+               "bogus", "clean_q", "qq_depth_mid.2", "parse-qq", "TRS_DESC",
                "x", "cleanqq", "default_ns2.n", "sec_colon", "qq_depth_min_.3",
                "segmented", "copyall", "north", "ocr_scrub_=True", "1")
 
@@ -298,10 +300,13 @@ def build(draw):
                    desc({"__cfg_text": ctext, "shared": True}, **base)]
         lower_ok = all(not isinstance(v, str) or v == v.lower()
                        or k == "layout" for k, v in sigma.items())
+        H["Ac"] = [desc({"__cfg_copy_text": ctext}, **base)]
         pairs += [("A", "Ao", "final"), ("A", "Bo", "final"),
-                  ("A", "As", "final")]
+                  ("A", "As", "final"), ("A", "Ac", "final")]
         if lower_ok:
-            pairs += [("A", "Ak", "final"), ("A", "Ad", "final")]
+            H["Ack"] = [desc({"__cfg_copy_kwargs": dict(sigma)}, **base)]
+            pairs += [("A", "Ak", "final"), ("A", "Ad", "final"),
+                      ("A", "Ack", "final")]
         pre = {k: v for k, v in sigma.items()
                if k in ("default_ns", "default_ew", "ocr_scrub")}
         if pre and len(pre) == len(sigma):
@@ -358,8 +363,9 @@ def build(draw):
         H["Ao"] = [tract({"__cfg_text": ctext}, parse_qq=True)]
         H["Ak"] = [tract({"__cfg_kwargs": dict(sigma)}, parse_qq=True)]
         H["Bo"] = [tract(None), setc({"__cfg_text": ctext}), parse()]
+        H["Ack"] = [tract({"__cfg_copy_kwargs": dict(sigma)}, parse_qq=True)]
         pairs += [("A", "Ao", "final"), ("A", "Ak", "final"),
-                  ("A", "Bo", "final")]
+                  ("A", "Bo", "final"), ("A", "Ack", "final")]
         shared_cfg = {"__cfg_text": ctext + ",parse_qq", "shared": True}
         H["As"] = [{"op": "other_tract", "config": shared_cfg,
                     "kw": {"parse_qq": False}},
@@ -688,6 +694,12 @@ def _resolve_config(pytrs, cfg, shared):
         obj = pytrs.Config(cfg["__cfg_text"])
         shared[key] = obj
         return obj
+    if isinstance(cfg, dict) and "__cfg_copy_kwargs" in cfg:
+        # the copy form Config(<Config object>) of an object that was NOT
+        # built from text
+        return pytrs.Config(pytrs.Config.from_kwargs(**cfg["__cfg_copy_kwargs"]))
+    if isinstance(cfg, dict) and "__cfg_copy_text" in cfg:
+        return pytrs.Config(pytrs.Config(cfg["__cfg_copy_text"]))
     if isinstance(cfg, dict) and "__cfg_kwargs" in cfg:
         return pytrs.Config.from_kwargs(**cfg["__cfg_kwargs"])
     if isinstance(cfg, dict) and "__cfg_dict" in cfg:
